@@ -53,8 +53,9 @@ def scenarios(ctx):
                 gc.two_members(members=[dict(topics=["t"], assignors=["range"])], group_unauthorized=True, stop_after_failed_start=True,
                                **dict(tail, stop_alt=False)), [{"r": 1}]))
     # the final commit of stop() answered REBALANCE_IN_PROGRESS (one error reply placed anywhere, then stop placed anywhere)
+    # or its reply lost: a rebalance then lasts a request timeout, polls park on it, stop() arrives meanwhile
     out.append(("group-two-commit-rebalance-in-progress", scen_group.make,
-                gc.two_members(**dict(tail, errs={"OffsetCommit": [27]}, fault_apis=["OffsetCommit"], faults=["err"], k_mid=False, explore_until=1.9)),
+                gc.two_members(**dict(tail, errs={"OffsetCommit": [27]}, fault_apis=["OffsetCommit"], faults=["err", "lose"], k_mid=False, explore_until=1.9)),
                 [{"k": 1, "f": 1}]))
     if not quick:
         out.append(("group-two-faults", scen_group.make,
